@@ -70,6 +70,13 @@ def run_outcome(b, ps, tier, seed):
     from .. import runshapes
     for g, base, vs in runshapes.renaming_groups():
         items.append((g, base, [(v, {}) for v in vs]))
+    # every permutation of a small set of declarations (types, functions, processes, exec statements)
+    from .. import declshapes
+    byfam = {}
+    for i, k, t in declshapes.fam_order():
+        byfam.setdefault(i.rsplit(":", 1)[0], []).append(t)
+    for g, ts in sorted(byfam.items()):
+        items.append((g, ts[0], [(v, {}) for v in ts[1:]]))
     # hand-written collision cases from the corpus (reproducers of the capture findings and their renamed variants)
     import glob, os
     for p in sorted(glob.glob(os.path.join(C.CORPUS, "run", "*.grits"))):
